@@ -10,6 +10,7 @@ import (
 
 	"verifsim/harness"
 	"verifsim/sim"
+	"verifsim/simnet"
 )
 
 func msec(n int) time.Duration { return time.Duration(n) * time.Millisecond }
@@ -291,6 +292,21 @@ func runC01(c *harness.Ctx) {
 	ss := &streamSide{name: "s", dirOut: 1, dirIn: 0, plan: drawWrites(c, "sw", 6), rdBuf: []int{32768, 1, 7, 1427, 4096}[t.Draw("s.rdbuf", 5)], ending: &ending}
 	if directedT != nil {
 		cs.plan, ss.plan = directedWrites(c, "cw", directedT), directedWrites(c, "sw", directedT)
+	}
+	if t.Draw("many-small", 8) == 7 {
+		// dozens of small writes back to back, delivered to a reader that gets
+		// round to them late: many short frames (data and padding) in one read,
+		// then silence
+		side, pipe := cs, link.AB
+		if t.Draw("many-small.side", 2) == 1 {
+			side, pipe = ss, link.BA
+		}
+		side.plan = nil
+		for i, n := 0, 20+t.Draw("many-small.n", 60); i < n; i++ {
+			side.plan = append(side.plan, writePlan{Size: 1 + t.Draw("many-small.sz", 40)})
+		}
+		pipe.Policy, pipe.Lazy, pipe.MaxRead = simnet.ChunkAll, true, 0
+		c.Feature("many-small-writes-coalesced")
 	}
 	cs.expectIn, ss.expectIn = planTotal(ss.plan), planTotal(cs.plan)
 	drawHangUp(c, cs, ss, false)
